@@ -76,6 +76,26 @@ def specVariable (a : Annotation) (internal : Option (List (Rule VarIn))) (maxMo
   | _ => []
 
 
+/-! ### vocabulary of the clauses for all three modes -/
+
+/-- the mods a residue (or terminus) carries after one offered group `g` has been applied to the state `old`
+(`none` = unmodified): the group itself on an unmodified site; on a modified one `old ++ g` (append), `g` (overwrite);
+mode skip never touches a modified site -/
+def newVal (mode : Mode) (old : Option (List Mod)) (g : Group) : List Mod :=
+  match old with
+  | none => g
+  | some o =>
+    match mode with
+    | .append => o ++ g
+    | .overwrite => g
+    | .skip => o
+
+/-- hypothesis of the "no form twice" clause at one site: the states the site can take — the one it has and `newVal` for
+every offered group — are pairwise different (mode skip at a modified site offers nothing) -/
+def SiteOK (mode : Mode) (old : Option (List Mod)) (gs : List Group) : Prop :=
+  (mode = .skip ∧ old.isSome = true) ∨
+    ((gs.map (newVal mode old)).Nodup ∧ ∀ g ∈ gs, some (newVal mode old g) ≠ old)
+
 /-! ### static rules: the table of the property -/
 
 /-- the mods offered at position `i` by a rule dict: the value of every non-empty rule, once per occurrence of `i`
